@@ -11,6 +11,11 @@ if [ ${#ids[@]} -eq 0 ]; then ids=($(ls seeded)); fi
 rc=0
 for id in "${ids[@]}"; do
     prop=$(python3 -c "import json; print(json.load(open('seeded/$id/meta.json'))['property'])")
+    if python3 -c "import json,sys; sys.exit(0 if json.load(open('seeded/$id/meta.json')).get('superseded') else 1)"; then
+        echo "$id $prop SUPERSEDED (a later fix of /repo made this change harmless; see meta.json) - expected exit 0"
+        git -C /repo apply "/verif/seeded/$id/patch.diff" 2>/dev/null && { out=$(PYVC_NO_EVIDENCE=1 python3-vt -m pyvc.check "$prop" --tier quick 2>&1); r=$?; git -C /repo checkout -- .; echo "$id $prop exit=$r (0 expected)"; [ $r -ne 0 ] && rc=1; }
+        continue
+    fi
     if ! git -C /repo apply --check "/verif/seeded/$id/patch.diff" 2>/dev/null; then
         echo "$id $prop STALE (patch no longer applies to the current tree)"; continue
     fi
